@@ -85,7 +85,13 @@ def expected_factory(noise_on):
         g = I.path.ghost["elem"]
         e = I.path.ghost["compile_env"]
         gate = ("compile_one_gate", [e["state"], op, e["n_quantum"], e["q_index"], e["cregs"]])
-        extra = ("_apply_additional_noise", [e["state"], op, e["n_quantum"], e["q_index"]])
+        nz = g["noise_items"] if g["noise_items"] is not None else [g["noise"]]
+        NoN = I.get_class(NM, "NoNoise")
+
+        def extra_with(snap):
+            return ("_apply_additional_noise", [e["state"], op, e["n_quantum"], e["q_index"], tuple(snap)])
+
+        extra = extra_with(nz)
         noisy = ("compile_one_noisy_gate", [e["state"], op, e["n_quantum"], e["q_index"], e["cregs"]])
         kinds = g["kinds"]
         if not noise_on or all(k == "NoNoise" for k in kinds):
@@ -98,7 +104,10 @@ def expected_factory(noise_on):
                     return [gate, extra]
                 if not a0 and not a1:
                     return [extra, gate]
-                return [extra, gate, extra]
+                # split placement: the "before" part first (the other slot silenced), the gate, then the "after" part
+                if a0 and not a1:
+                    return [extra_with([NoN, nz[1]]), gate, extra_with([nz[0], NoN])]
+                return [extra_with([nz[0], NoN]), gate, extra_with([NoN, nz[1]])]
             return ("raises", ["ValueError"])
         k = kinds[0]
         if k == "add-after":
@@ -122,9 +131,21 @@ def post_iter(I, op, lab):
 
 def contracts(compiler_mod, compiler_cls):
     C = {}
-    for m in ("compile_one_gate", "compile_one_noisy_gate", "_apply_additional_noise"):
+    for m in ("compile_one_gate", "compile_one_noisy_gate"):
         q = f"{compiler_mod}:{compiler_cls}.{m}"
         C[q] = recorder(q, m)
+    # the additional-noise call is recorded together with the noise the operation carries AT THAT MOMENT
+    # (the temporary [NoNoise, n1] / [n0, NoNoise] lists decide which noise is actually applied)
+    q = f"{compiler_mod}:{compiler_cls}._apply_additional_noise"
+
+    def _extra_spec(I, self, state, op, n_quantum, q_index):
+        nz = op.fields["noise"]
+        snap = tuple(nz) if isinstance(nz, list) else (nz,)
+        I.path.trace.append({"name": "_apply_additional_noise", "args": [state, op, n_quantum, q_index, snap], "self": self, "ret": None})
+        return None
+
+    from pyvc.contract import Contract as _C
+    C[q] = _C(q, spec=_extra_spec, clause="recorded call with the noise carried by the operation at call time")
     for p_ in ("n_quantum", "n_photons", "n_classical"):
         q = f"{CIRC}:CircuitBase.{p_}"
         C[q] = recorder(q, p_, result=(lambda nm_: (lambda I, self: {"n_quantum": z3.Int("n_p") + z3.Int("n_e"), "n_photons": z3.Int("n_p"),
